@@ -111,12 +111,17 @@ func readEmptied(repo string) map[string]bool {
 	return res
 }
 
-func buildCorpus(repo, work string, tier string, seed uint64, o *hxlib.Out) []*Job {
+func buildCorpus(repo, work string, tier string, seed uint64, ngen int, o *hxlib.Out) []*Job {
 	var jobs []*Job
 	quick := tier == "quick"
 	rng := hxlib.NewRng(seed)
 	add := func(j *Job) {
 		j.Variant = len(jobs) % 3
+		if j.Heavy {
+			// the heavy examples are compiled with default parameters only
+			// (mascot under the GMW target needs > 17 GB)
+			j.Variant = 0
+		}
 		jobs = append(jobs, j)
 		o.Count("corpus_" + j.Family)
 	}
@@ -229,10 +234,6 @@ func main(a, b uint32) (uint32, byte, byte) {
 }
 `})
 	// --- generated
-	ngen := 10
-	if !quick {
-		ngen = 48
-	}
 	for i := 0; i < ngen; i++ {
 		j := genProgram(rng.Fork(), work, i, false)
 		add(j)
@@ -240,7 +241,7 @@ func main(a, b uint32) (uint32, byte, byte) {
 	// two programs whose imported packages use the same alias for different
 	// packages (Compiler.packages is keyed by alias)
 	nac := 1
-	if !quick {
+	if ngen > 10 {
 		nac = 4
 	}
 	for i := 0; i < nac; i++ {
